@@ -6,7 +6,7 @@ from fractions import Fraction
 from typing import Any, List
 
 from .. import driver
-from ..common import Ctx, b2f, f2b, import_repo, ulp_diff
+from ..common import Ctx, b2f, f2b, import_repo, near
 
 LEVEL = "proof"
 EXPLANATION = (
@@ -120,7 +120,7 @@ def run(ctx: Ctx) -> None:
             for i, t in enumerate(taus):
                 m = b2f(resp[pos + i]["tau"])
                 case = {"residual_mult": str(r), "residual_attn_ratio": str(rho), "layers": 2 * L, "index": i}
-                if ulp_diff(m, t) > 4:
+                if not near(m, t):
                     ctx.disagree("tau_float", case, m, t, THMS)
                 # float(r), float(rho) are not exactly r, rho for 1/3, 2/3: allow 1e-12
                 if not close(Fraction(t) ** 2, exact[i], Fraction(1, 10**12)):
@@ -175,6 +175,6 @@ def run(ctx: Ctx) -> None:
             if ctx.driver_ok:
                 m = driver.ask([{"k": "stacktaus", "r": f2b(float(r)), "rho": f2b(float(rho)), "layers": L}])[0]
                 mt = [b2f(x) for pair in m["taus"] for x in pair]
-                if len(mt) != len(attrs) or any(ulp_diff(a, b) > 4 for a, b in zip(mt, attrs)):
+                if len(mt) != len(attrs) or any(not near(a, b) for a, b in zip(mt, attrs)):
                     ctx.disagree("stack_wiring", case, mt[:8], attrs[:8], ["USProofs.C07.stack_wiring"])
     ctx.exhaustive = False
